@@ -134,3 +134,21 @@ func TestVerifC38(t *testing.T) {
 			"state (or, with restricted spans, the state inside the spans) must equal the model state after some prefix P of the units with "+
 			"P >= the last synced unit (>= every committed unit with WithFlushedWAL).")
 }
+
+// C43: I/O faults never cause wrong results or inconsistent state.
+func TestVerifC43(t *testing.T) {
+	R := vcommon.NewReport("C43", "main")
+	defer R.Finish(t)
+	R.Rule("Histories alternate fault-free phases with phases in which a seeded rule injects errorfs.ErrInjected into filesystem operations (by op " +
+		"kind: read / open+stat / write / sync / create / close / remove / link+rename; by file type: tables, blobs, ingest sources; after k matching " +
+		"ops; one-shot or a window of up to 40 ops). Under faults every Get / scan / Flush / Compact / Ingest may return an error but a success " +
+		"must match the model (scans: every position before an error; iterator errors must be sticky); a failed Ingest must have no effect. After the " +
+		"faults stop: full audit against the model, CheckLevels, a crash clone (0/50/100 % survival) recovering to a legal prefix state, optional " +
+		"reopen. WAL/MANIFEST faults (fatal by design) are not injected. distinct_nontrivial = distinct (history, round, rule, position, injections) with >= 1 injected fault.")
+	n := vcommon.Scale(60, 1500)
+	k := dbcheck.Knobs{Name: "C43", Units: 0, RangeKeys: true, Batches: true, Maint: true, Ingest: true, BigValues: true, ValueSep: true,
+		Snapshots: true, NoAutoCompactionsPct: 10, TinyCaches: true}
+	R.Cases(n, func(i int, rng *rand.Rand) {
+		RunFaultHistory(R, k, i, rng)
+	})
+}
